@@ -27,9 +27,9 @@ ASSUMPTIONS = [
 ]
 NOT_DECIDED = [
     "contraction of the factors reproduces the input to numerical precision; U/Q isometric, V co-isometric; singular values "
-    "non-negative and ordered; R upper-triangular with non-negative diagonal; eig bi-orthonormality (floating point, LAPACK)",
-    "eig (non-Hermitian) and the lowrank/randomized/krylov policies",
-    "eigh with which != 'SR': the in-block re-sorting of eigenpairs (data level)",
+    "non-negative and ordered; R upper-triangular with non-negative diagonal; eig bi-orthonormality; eigh/eig ordering for every "
+    "`which` (floating point, LAPACK): only the BOUNDED stand-in (linalg_bounded: enumerated concrete tensors, 1e-10) -- not a proof",
+    "the lowrank/randomized/krylov policies",
 ]
 
 
@@ -141,8 +141,13 @@ def h_eigh(V, sym, lt, trans, Uaxis):
     same_sectors(V, 'connecting-leg-of-U-matches-S', connecting_leg_sectors(U, pu, sym), connecting_leg_sectors(S, 0, sym))
 
 
+import contracts.linalg_bounded as LB
+from contracts.linalg_bounded import h_svd_relations, h_qr_relations, h_eigh_relations, h_eig_relations
+BOUNDED_HARNESSES = {'h_svd_relations', 'h_qr_relations', 'h_eigh_relations', 'h_eig_relations'}
+
+
 def units(tier):
-    U = []
+    U = LB.units_c04(tier)
     th = tier == 'thorough'
     syms = ALL_SYMS if th else ('dense', 'Z2', 'U1', 'Z2xU1')
     cases = [  # nd, axes, trans
